@@ -39,4 +39,28 @@ META = {
         "text": "Writers (SetValue, SwapValue inc/const/nil), readers and all four waiter kinds with contexts and error channels over plain and custom equality; the model is advanced in the exact order the controller grants the critical sections, so every GetValue/SwapValue result and every waiter return is compared with the linearised cell history.",
         "note": "One critical section per mutator call (true for the anchored code). Values 0..8, equality mod 4.",
     },
+    "C11": {
+        "engine": _E1, "design_ref": "DESIGN.md §4 C11",
+        "technique": "stateful PBT with generated schedule over Promise and PromiseContainer; unique result values make every returned result attributable; spin detection by a grant budget; blocked-despite-result at synctest quiescence",
+        "text": "Setters (incl. context sentinel errors as results), three awaiter kinds with contexts and channels, container replacement ops. Exactly one SetResult may return true, every value returned must be the winner's, a container awaiter may only return the result of a promise that was current after the awaiter's last quiescent block, blocked awaiters at quiescence must have no result, live context and silent channel. An awaiter that keeps taking critical sections without blocking (grant budget exceeded) is reported as a spin.",
+        "note": "Open findings D16a/D16b (container AwaitWithErrCh/AwaitWithCancelCh ignore their channel while an unresolved promise is current) are excluded by construction and reported as KNOWN-FINDING; nil errors on error channels are not generated.",
+    },
+    "C16": {
+        "engine": _E1, "design_ref": "DESIGN.md §4 C16",
+        "technique": "stateful PBT with generated schedule; scripted function invocations (blocked until a generated Finish), call counting, stale-error and blocked-without-invocation oracles at quiescence",
+        "text": "Callers are parked before the Once mutex and the wrapped function blocks until the generator finishes it with a value, an error or the initiator's context error, so arrival order relative to completion is a generated quantity. Checked: never two invocations at once, none after success, every value equals the success value, Canceled only for cancelled callers, errors come from an invocation, no caller re-uses an error that another caller had already received before it was issued, live callers are blocked only while an invocation is in flight. MemoizeFunc: exactly one invocation, everyone gets its result.",
+        "note": "A function returning context.Canceled while all contexts are live is not generated (property leaves it open).",
+    },
+    "C17": {
+        "engine": _E1, "design_ref": "DESIGN.md §4 C17",
+        "technique": "PBT over argument lists and scripted outcomes with a generated schedule that can delay the caller right after each of its critical sections",
+        "text": "0..8 functions incl. nil entries with scripted outcomes and a generated caller-cancel point; the functions park at entry so completion order is generated. Result checked against the multiset of outcomes observed at return, per-function invocation counts, context cancelled after return, no panic for any argument list.",
+        "note": "Functions that block do so on their context only.",
+    },
+    "C18": {
+        "engine": _E1, "design_ref": "DESIGN.md §4 C18",
+        "technique": "model-based stateful PBT with generated schedule; (queued,running) model advanced in critical-section order, ground-truth counters inside the jobs, probes at quiescence",
+        "text": "Jobs block until the generator finishes them. Checked at every job start: active <= limit and single execution; at quiescence: Enqueue() equals both the model and the harness ground truth, no job waits while a slot is free, observers are not blocked while idle; WaitIdle nil implies all earlier jobs finished; limit 1 start order equals enqueue (critical-section) order; every reported pair satisfies queued>0 => running==limit.",
+        "note": "Bounded: <= 60 ops, batches <= 4.",
+    },
 }
